@@ -34,7 +34,7 @@ GROUP_IMPL = {
 
 def run(ctx):
     prog = ctx.prog
-    repo = os.environ.get("ESSB_REPO", F.REPO)
+    repo = ctx.repo
     spec = T.load_spec(repo)
     for r, txt in [("O1", "T1's domain is exactly the spec's opcode set and T1 is injective; every other byte -> InvalidOpcodeError(byte)"),
                    ("O2", "T1(b) names the spec op with opcode b (group and top-level tables)"),
